@@ -174,8 +174,12 @@ func (r *recallWantlist) clearSentAt(c cid.Cid) {
 	delete(r.sentAt, c)
 }
 
-// refresh moves wants from the sent list back to the pending list.
-// If a want has been sent for longer than the interval, it is moved back to the pending list.
+// refresh puts wants from the sent list back on the pending list.
+// If a want has been sent for longer than the interval, it is added to the
+// pending list again so that it is re-sent. It stays on the sent list: the peer
+// still has the want, and a cancel that arrives before the want has been
+// re-sent must still be sent to the peer (AddCancels only sends a cancel for
+// wants that are on the sent list).
 // Returns the number of wants that were refreshed.
 func (r *recallWantlist) refresh(now time.Time, interval time.Duration) int {
 	var refreshed int
@@ -183,7 +187,6 @@ func (r *recallWantlist) refresh(now time.Time, interval time.Duration) int {
 		wantCid := want.Cid
 		sentAt, ok := r.sentAt[wantCid]
 		if ok && now.Sub(sentAt) >= interval {
-			r.sent.Remove(wantCid)
 			r.pending.Add(wantCid, want.Priority, want.WantType)
 			refreshed++
 		}
